@@ -81,6 +81,14 @@ type Config struct {
 	// (then "received" is not observable and stands for "started").
 	HWM      string `json:"high_watermark,omitempty"`
 	PureRecv bool   `json:"builder_default_received_handler,omitempty"`
+	// QGroup: WithQueueGroup.  DupSubj (only with QGroup): the subject list
+	// names the first subject twice (two subscriptions in one queue group
+	// share its traffic).  In every scenario LATE requests are published after
+	// Stop AND Serve have returned: the stopped server must take nothing off
+	// NATS any more; with a queue group a probe member subscribed after Serve
+	// returned must see every late request (none stolen).
+	QGroup  bool `json:"queue_group,omitempty"`
+	DupSubj bool `json:"duplicated_subject,omitempty"`
 	// Bad: number of failing requests interleaved into the first half of the
 	// "received before Stop" stream (message shorter than the 4-byte frame
 	// size, wrong header version, truncated header, processor error), each
@@ -140,6 +148,8 @@ type Result struct {
 	Timeline     []string `json:"timeline,omitempty"`
 	Restart      bool     `json:"restart,omitempty"` // the child must not run further scenarios
 	BadPublished int      `json:"failing_requests_published"`
+	Late         int      `json:"late_requests"`
+	LateAtProbe  int      `json:"late_requests_seen_by_queue_group_probe"`
 	// early-Stop scenarios: subscriptions on the server connection when Stop
 	// was called (< wanted: Serve was certainly not yet parked on its quit channel)
 	EarlySubs int `json:"subs_at_early_stop"`
@@ -556,7 +566,17 @@ func runScenario(ns *rig.NatsServer, c Config) (res *Result) {
 		return s.inconclusive("collector flush: %v", err)
 	}
 	var otherMsgs atomic.Int64
-	wantSubs := c.NSubj
+	// the list handed to the builder; publishing uses the distinct subjects
+	subjectList := append([]string(nil), subjects...)
+	if c.DupSubj && c.QGroup {
+		if c.Seed%2 == 0 {
+			subjectList = append(subjectList, subjects[0])
+		} else {
+			subjectList = append([]string{subjects[0]}, subjectList...)
+		}
+	}
+	const queueGroup = "c20-workers"
+	wantSubs := len(subjectList)
 	if c.Share {
 		if _, err := srvConn.Subscribe(base+".other", func(*nats.Msg) { otherMsgs.Add(1) }); err != nil {
 			return s.inconclusive("other subscribe: %v", err)
@@ -575,7 +595,7 @@ func runScenario(ns *rig.NatsServer, c Config) (res *Result) {
 		hwm = d
 	}
 	defStarted := frugal.NewDefaultFNatsServerOnRequestStarted(hwm)
-	builder := frugal.NewFNatsServerBuilder(srvConn, s.proc, pf, subjects).
+	builder := frugal.NewFNatsServerBuilder(srvConn, s.proc, pf, subjectList).
 		WithWorkerCount(uint(c.W)).
 		WithQueueLength(uint(c.Q)).
 		WithRequestStartedEventHandler(func(props map[interface{}]interface{}) {
@@ -593,6 +613,9 @@ func runScenario(ns *rig.NatsServer, c Config) (res *Result) {
 		})
 	if c.HWM != "" {
 		builder = builder.WithHighWatermark(hwm)
+	}
+	if c.QGroup {
+		builder = builder.WithQueueGroup(queueGroup)
 	}
 	if !c.PureRecv {
 		builder = builder.WithRequestReceivedEventHandler(func(props map[interface{}]interface{}) {
@@ -1068,6 +1091,89 @@ func runScenario(ns *rig.NatsServer, c Config) (res *Result) {
 	}
 	s.mark("replies collected")
 	s.res.OtherMsgs = otherMsgs.Load()
+
+	// ---- late requests: after Stop AND Serve have returned ----------------
+	// The stopped server must take nothing off NATS any more.  With a queue
+	// group a probe member (subscribed now, on the collector's connection)
+	// must get every late request: the broker hands each to exactly one
+	// member, so a missing one went to a subscription the server left behind.
+	// everything published so far (the publisher racing Stop may have left
+	// requests in its buffer) is routed before the probe subscribes
+	if err := flush(pubConn); err != nil {
+		return s.inconclusive("publisher flush: %v", err)
+	}
+	var probes []*nats.Subscription
+	if c.QGroup {
+		for _, subj := range subjects[:busy] {
+			ps, err := colConn.QueueSubscribeSync(subj, queueGroup)
+			if err != nil {
+				return s.inconclusive("probe subscribe: %v", err)
+			}
+			ps.SetPendingLimits(-1, -1)
+			probes = append(probes, ps)
+		}
+		if err := flush(colConn); err != nil {
+			return s.inconclusive("probe flush: %v", err)
+		}
+	}
+	var lateIDs []uint64
+	for i, n := 0, 2+rng.Intn(6); i < n; i++ {
+		lateIDs = append(lateIDs, newID(classAfter))
+	}
+	s.res.Late = len(lateIDs)
+	s.res.Requests += len(lateIDs)
+	for _, id := range lateIDs {
+		publish(id)
+	}
+	if err := dflush(); err != nil { // routed by the broker; read by the server's client if routed to it
+		return s.inconclusive("flush of late requests: %v", err)
+	}
+	if err := flush(colConn); err != nil {
+		return s.inconclusive("probe flush: %v", err)
+	}
+	// whatever the server's client got has been through its callback
+	lateBarrier := make(chan struct{})
+	if err := srvConn.Barrier(func() { close(lateBarrier) }); err != nil {
+		return s.inconclusive("barrier after late requests: %v", err)
+	}
+	if !s.await(lateBarrier) {
+		r := s.inconclusive("server connection callbacks did not finish after the late requests")
+		r.Restart = true
+		return r
+	}
+	isLate := map[uint64]bool{}
+	for _, id := range lateIDs {
+		isLate[id] = true
+	}
+	for _, ps := range probes {
+		for {
+			n, _, err := ps.Pending()
+			if err != nil {
+				return s.inconclusive("probe pending: %v", err)
+			}
+			if n == 0 {
+				break
+			}
+			m, err := ps.NextMsg(60 * time.Second)
+			if err != nil {
+				return s.inconclusive("probe next: %v", err)
+			}
+			if _, payload, perr := wire.ParseFrame(m.Data); perr == nil && len(payload) >= 8 && isLate[binary.BigEndian.Uint64(payload)] {
+				delete(isLate, binary.BigEndian.Uint64(payload)) // each late request once
+				s.res.LateAtProbe++
+			}
+		}
+		ps.Unsubscribe()
+	}
+	lateSnap := s.snap()
+	s.mark("late requests published and flushed")
+	if c.QGroup && s.res.LateAtProbe != len(lateIDs) {
+		s.violation("C20:late-request-taken-by-stopped-server", fmt.Sprintf("%d of %d requests published after Stop and Serve had returned did not reach the only live member of the queue group: the stopped server still holds a subscription", len(lateIDs)-s.res.LateAtProbe, len(lateIDs)),
+			map[string]interface{}{"late": len(lateIDs), "seen_by_probe": s.res.LateAtProbe, "received_at_serve_return": serveSnap.Received, "received_now": lateSnap.Received, "subject_list": subjectList})
+	} else if !c.PureRecv && lateSnap.Received != serveSnap.Received {
+		s.violation("C20:late-request-taken-by-stopped-server", fmt.Sprintf("%d requests were taken off NATS by the server (request-received events) after Stop and Serve had returned", lateSnap.Received-serveSnap.Received),
+			map[string]interface{}{"late": len(lateIDs), "received_at_serve_return": serveSnap.Received, "received_now": lateSnap.Received, "subject_list": subjectList})
+	}
 
 	// ---- oracle ----------------------------------------------------------
 	pubErrMu.Lock()
